@@ -27,7 +27,7 @@ VARIANTS = [
     V("N-arithmetic-bound-grid", O, "    num_segments = math.ceil(clip.duration / hop)", "    num_segments = int(clip.duration / hop) + 2", None),
     # wave 6
     V("clip-times-rounded-by-validator(G.5)", "src/soundevent/data/clips.py", "from pydantic import BaseModel, Field, model_validator", "from pydantic import BaseModel, Field, field_validator, model_validator", "G.5",
-      also=(("src/soundevent/data/clips.py", "    @model_validator(mode=\"before\")\n    def _validate_times(cls, values):", "    @field_validator(\"start_time\", \"end_time\")\n    def _microseconds(cls, v):\n        return round(v, 6)\n\n    @model_validator(mode=\"before\")\n    def _validate_times(cls, values):"),)),
-    V("clip-before-validator-rewrites(G.5)", "src/soundevent/data/clips.py", "            raise ValueError(\"start_time must be less than end_time\")\n        return values", "            raise ValueError(\"start_time must be less than end_time\")\n        return {**values, \"start_time\": round(values[\"start_time\"], 6)}", "G.5"),
+      also=(("src/soundevent/data/clips.py", "    @model_validator(mode=\"after\")\n    def _validate_times(self):", "    @field_validator(\"start_time\", \"end_time\")\n    def _microseconds(cls, v):\n        return round(v, 6)\n\n    @model_validator(mode=\"after\")\n    def _validate_times(self):"),)),
+    V("clip-before-validator-rewrites(G.5)", "src/soundevent/data/clips.py", "            raise ValueError(\"start_time must be less than end_time\")\n        return self", "            raise ValueError(\"start_time must be less than end_time\")\n        self.start_time = round(self.start_time, 6)\n        return self", "G.5"),
     V("segments-built-without-validation(G.10)", "src/soundevent/operations.py", "        yield data.Clip(", "        yield data.Clip.model_construct(", "G.10"),
 ]
